@@ -5,6 +5,7 @@ reader/iterator) plus logical step budgets (read/recv calls of the doubles; fiel
 counted by the icontract post-condition). Wall-clock never decides.
 """
 
+import io
 import random
 
 from vf import bits as B
@@ -235,8 +236,50 @@ def _plain_stream(ctx, data, mode, validate, kind, label):
 
     libs = common.lib_errors()
     params = {"kind": "plain", "data": data.hex(), "mode": mode, "validate": validate, "stream": kind, "label": label}
-    stream = io.BytesIO(data) if kind == "bytesio" else io.BufferedReader(io.BytesIO(data), buffer_size=16)
+    # genuine standard-library objects; the (sub-classed) BytesIO only COUNTS calls: logical step budget
+    core = _CountedBytesIO(data)
+    core._budget = 6 * len(data) + 64
+    stream = core if kind == "bytesio" else io.BufferedReader(core, buffer_size=16)
     ctx.hit("plain_stream_runs")
+    try:
+        try:
+            _plain_drive(ctx, stream, data, mode, validate, kind, label, params, libs)
+        finally:
+            core._budget = 1 << 60  # closing a BufferedReader may touch the raw object again
+    except doubles.BudgetExceeded as e:
+        ctx.violation("no-termination", f"{label} ({kind}, mode {mode}, {len(data)} bytes): {e}", params)
+
+
+class _CountedBytesIO(io.BytesIO):
+    """io.BytesIO whose reading calls are counted against a budget (behaviour otherwise untouched)."""
+
+    _budget = 1 << 60
+
+    def _tick(self):
+        self._budget -= 1
+        if self._budget < 0:
+            raise doubles.BudgetExceeded("more stream calls than the step budget of a finite input allows")
+
+    def read(self, *a):
+        self._tick()
+        return super().read(*a)
+
+    def read1(self, *a):
+        self._tick()
+        return super().read1(*a)
+
+    def readinto(self, b):
+        self._tick()
+        return super().readinto(b)
+
+    def readline(self, *a):
+        self._tick()
+        return super().readline(*a)
+
+
+def _plain_drive(ctx, stream, data, mode, validate, kind, label, params, libs):
+    from pyrtcm import RTCMReader
+
     try:
         rdr = RTCMReader(stream, validate=validate, quitonerror=mode, errorhandler=(lambda e: None))
         guard = len(data) + 16
